@@ -45,16 +45,30 @@ Definition nanmedian (l : list (option Q)) : option Q :=
   end.
 
 (* ------------------------------------------------------------------ MedianFilter.median_filter
-   None = the ValueError of as_strided when the image is smaller than the window minus one *)
-Definition median_filter (B w ny nx : Z) (data : map2) : option map2 :=
+   (after `fix: median filter on an image smaller than filter_size - 1 ...`: an image smaller than
+   the window is returned as it is; before that commit as_strided raised ValueError when
+   ny < w - 1 or nx < w - 1) *)
+Definition median_filter (B w ny nx : Z) (data : map2) : map2 :=
+  if (ny <? w) || (nx <? w) then data                            (* return data_median (= np.copy(data)) *)
+  else
+    let my := ny - w + 1 in
+    let mx := nx - w + 1 in
+    let radius := w / 2 in                                      (* int(filter_size / 2) *)
+    let data_median :=
+      loop2 (fun i j => nanmedian (window data w i j)) B ny nx my mx radius radius data in
+    fun r c => if is_none (data r c) then None else data_median r c.   (* [invalid] = nan *)
+
+(* the code as found (before the fix: commit): no early return; sliding_window raised ValueError
+   (None) when the image had fewer than w - 1 rows or columns.  Kept for the regression Example. *)
+Definition median_filter_before (B w ny nx : Z) (data : map2) : option map2 :=
   let my := ny - w + 1 in
   let mx := nx - w + 1 in
   if (my <? 0) || (mx <? 0) then None
   else
-    let radius := w / 2 in                                      (* int(filter_size / 2) *)
+    let radius := w / 2 in
     let data_median :=
       loop2 (fun i j => nanmedian (window data w i j)) B ny nx my mx radius radius data in
-    Some (fun r c => if is_none (data r c) then None else data_median r c).   (* [invalid] = nan *)
+    Some (fun r c => if is_none (data r c) then None else data_median r c).
 
 (* MedianFilter.filter_disparity: (disparity map, validity mask) -> the same pair after the call *)
 Definition invalid_px (inv m : Z) : bool := negb (Z.land m inv =? 0).
@@ -63,14 +77,11 @@ Definition masked_data (inv : Z) (disp : map2) (mask : Z -> Z -> Z) : map2 :=
   fun r c => if invalid_px inv (mask r c) then None else disp r c.
 
 Definition median_filter_disparity (inv B w ny nx : Z) (disp : map2) (mask : Z -> Z -> Z)
-  : option (map2 * (Z -> Z -> Z)) :=
+  : map2 * (Z -> Z -> Z) :=
   let md := masked_data inv disp mask in
-  match median_filter B w ny nx md with
-  | None => None
-  | Some med =>
-    (* disp[valid] = disp_median[valid], valid = isfinite(masked_data) *)
-    Some (fun r c => if is_none (md r c) then disp r c else med r c, mask)
-  end.
+  let med := median_filter B w ny nx md in
+  (* disp[valid] = disp_median[valid], valid = isfinite(masked_data) *)
+  (fun r c => if is_none (md r c) then disp r c else med r c, mask).
 
 (* ------------------------------------------------------------------ BilateralFilter
    [sk a b] is gauss_spatial_kernel[a, b], [rk x] the normalized gaussian of an intensity
@@ -129,14 +140,12 @@ Record mfi_out : Type := mkMfi {
 
 Definition mfi_filter_disparity (bit11 B w ny nx : Z)
            (reg : option ((map2 -> map2 -> map2 * map2 * (Z -> Z -> bool))))
-           (disp binf bsup : map2) (mask : Z -> Z -> Z) : option mfi_out :=
-  match median_filter B w ny nx binf, median_filter B w ny nx bsup with
-  | Some i1, Some s1 =>
-    match reg with
-    | None => Some (mkMfi disp i1 s1 mask)
-    | Some oracle =>
-      let '(i2, s2, rm) := oracle i1 s1 in
-      Some (mkMfi disp i2 s2 (fun r c => if rm r c then Z.lor (mask r c) bit11 else mask r c))
-    end
-  | _, _ => None
+           (disp binf bsup : map2) (mask : Z -> Z -> Z) : mfi_out :=
+  let i1 := median_filter B w ny nx binf in
+  let s1 := median_filter B w ny nx bsup in
+  match reg with
+  | None => mkMfi disp i1 s1 mask
+  | Some oracle =>
+    let '(i2, s2, rm) := oracle i1 s1 in
+    mkMfi disp i2 s2 (fun r c => if rm r c then Z.lor (mask r c) bit11 else mask r c)
   end.
